@@ -28,6 +28,11 @@ class SymHash:
         self.rope = rope
 
 
+class _ConcreteHash(str):
+    """hexdigest of a concrete text; the text is kept for the check"""
+    text = None
+
+
 class _Md5:
     def __init__(self, data):
         self.data = data
@@ -35,7 +40,9 @@ class _Md5:
     def hexdigest(self):
         if isinstance(self.data, (bytes, bytearray)):
             import hashlib
-            return hashlib.md5(self.data).hexdigest()
+            h_ = _ConcreteHash(hashlib.md5(self.data).hexdigest())
+            h_.text = bytes(self.data).decode("utf-8", "replace")
+            return h_
         return SymHash(self.data)
 
 
@@ -138,7 +145,9 @@ def _worker(idxs):
                     continue
                 if isinstance(hsh, str):
                     import hashlib
-                    if [f for f in dbkeys if f.id in fids] or hsh != hashlib.md5(mid.encode()).hexdigest():
+                    txt = getattr(hsh, "text", None)
+                    id_only_ok = (hsh == hashlib.md5(mid.encode()).hexdigest()) or (txt is not None and mid in txt)      # no key fields: any text that names the definition
+                    if [f for f in dbkeys if f.id in fids] or not id_only_ok:
                         rep.violation({"kind": "hash-shape", "def": p.id}, "%s: hash %s is not md5 of the id alone / key fields ignored" % (p.id, hsh), {"kind": "collide", "def": p.id})
                     continue
                 parts = hsh.rope.parts if isinstance(hsh, SymHash) else [hsh]
@@ -152,6 +161,11 @@ def _worker(idxs):
                 for f in seen_fields:
                     want += ["_", exp_raw.get(f.id, "<missing>")]
                 ok = _same_shape(flat, want)
+                if not ok and _semantically_fine(flat, mid, seen_fields, exp_raw, fvars):
+                    # another text format that is still an injective function of (id, key raw values) and of nothing else:
+                    # the property constrains which messages share a hash, not how the hashed text looks
+                    rep.count("definitions_with_another_hash_text_format_accepted")
+                    continue
                 if not ok:
                     rep.violation({"kind": "hash-shape", "def": p.id},
                                   "%s: hash input is %s, expected id + '_' + raw value of key fields %r" % (p.id, _shape(flat), [f.id for f in seen_fields]),
@@ -190,6 +204,80 @@ def _worker(idxs):
         if len(rep.samples) < 2 and dbkeys:
             rep.sample({"definition": p.id, "key_fields": [f.id for f in dbkeys]})
     return dict(violations=rep.violations, inconclusive=rep.inconclusive, errors=rep.harness_errors, samples=rep.samples, stats=explorer.STATS, nd=nd, nk=nk)
+
+
+def _zvars(t, acc, consts=None):
+    if z3.is_const(t) and t.decl().kind() == z3.Z3_OP_UNINTERPRETED:
+        acc.add(t.decl().name())
+        if consts is not None:
+            consts[t.decl().name()] = t
+        return
+    for ch in t.children():
+        _zvars(ch, acc, consts)
+
+
+def _terms_of(x):
+    if isinstance(x, SymRope):
+        out = []
+        for q in x.parts:
+            out += _terms_of(q)
+        return out
+    if isinstance(x, SymOpt):
+        return [x.none] + _terms_of(x.inner)
+    if isinstance(x, (SymInt, SymFloat)):
+        return [x.t]
+    if hasattr(x, "key") and hasattr(x, "mapping"):
+        return _terms_of(x.key)
+    if isinstance(x, str) or x is None or isinstance(x, (int, float)):
+        return []
+    return None
+
+
+def _semantically_fine(flat, mid, key_fields, exp_raw, fvars):
+    """the hashed text is (1) made of literal text containing the definition id and of the key fields' raw values only,
+    (2) with a literal separator between any two values, (3) an injective function of the key fields' bits"""
+    merged = []
+    for x in flat:
+        if isinstance(x, str) and merged and isinstance(merged[-1], str):
+            merged[-1] += x
+        else:
+            merged.append(x)
+    lits = "".join(x for x in merged if isinstance(x, str))
+    if mid not in lits:
+        return False
+    syms = [x for x in merged if not isinstance(x, str)]
+    if any(not isinstance(a, str) and not isinstance(b, str) for a, b in zip(merged, merged[1:])):
+        return False
+    allowed = set()
+    consts = {}
+    for f in key_fields:
+        fv = fvars.get(f.order)
+        if fv is None:
+            return False
+        _zvars(fv, allowed, consts)
+    used = set()
+    terms = []
+    for x in syms:
+        ts = _terms_of(x)
+        if ts is None:
+            return False
+        ts = [z3.simplify(t) for t in ts]
+        terms += ts
+        for t in ts:
+            _zvars(t, used)
+    if not used <= allowed:
+        return False
+    if len(syms) != len(key_fields):
+        return False
+    # two-copy injectivity of the tuple of pieces in the key fields' bits (the variables may hold other fields' bits too:
+    # only the key fields' own bits have to be determined by the text)
+    subs = [(c_, z3.BitVec(nm_ + "_c2", c_.size())) for nm_, c_ in consts.items()]
+    if not subs:
+        return False
+    same = z3.And(*[t == z3.substitute(t, *subs) for t in terms]) if terms else z3.BoolVal(True)
+    keys_equal = z3.And(*[fvars[f.order] == z3.substitute(fvars[f.order], *subs) for f in key_fields])
+    st, _m = prove(z3.Implies(same, keys_equal), label="hash-text-injective")
+    return st == "unsat"
 
 
 def _shape(flat):
